@@ -20,7 +20,7 @@
 //        (m17-mod: impulse train through taps = sqrt(10) * unit-energy RRC, times 7168, to int16; m17-demod: sample / 41067.0).
 //
 // Output (stdout): "M <n>" first sample index of each main tx segment; "F <n> <type> <hex> <cost> <idev> <offset>" for every frame callback;
-// "L <n> <0|1>" when locked() changes; "Q <n> <state>" when demodState changes; "E <n>" at the end; with trace also "I"/"S"/"D" lines.
+// "L <n> <0|1>" when locked() changes; "Q <n> <state>" when demodState changes; "Z <dcd.level_> <isfinite> <dcd.triggered_>" and "E <n>" at the end; with trace also "I"/"S"/"D" lines.
 #include "M17Demodulator.h"
 #include "common.h"
 
@@ -238,7 +238,12 @@ int run_case(const char* path, bool render)
         else { fprintf(stderr, "bad segment: %s\n", line.substr(0, 60).c_str()); return 2; }
     }
     ensure();
-    if (!render) { char b[64]; snprintf(b, sizeof b, "E %ld\n", r.n); r.emit(b); }
+    if (!render) {
+        char b[128];
+        // the carrier detector's public level at the end of the run (finite?) and its flag
+        snprintf(b, sizeof b, "Z %a %d %d\n", double(r.d->dcd.level_), int(std::isfinite(r.d->dcd.level_)), int(r.d->dcd.triggered_)); r.emit(b);
+        snprintf(b, sizeof b, "E %ld\n", r.n); r.emit(b);
+    }
     r.flush();
     return 0;
 }
